@@ -222,6 +222,68 @@ let run_runner toks impl =
     else "runner " ^ String.concat " " (List.map show !log) ^ " (predicted)"
   | _ -> "badline"
 
+(* estab <lns|lac> <step>...  (see the dispatch harness).  The tunnel's channel is the node model (it decides which
+   copies are duplicates), the SCCRQ demultiplexing is conn_step; the handlers' effects on the tables are:
+   lns: sccrq opens a tunnel and writes SCCRP; icrq adds a session and writes ICRP; cdn removes the session; stop
+   removes the tunnel.   lac: sccrp writes SCCCN and ICRQ and adds a session; icrp writes ICCN; cdn; stop. *)
+let run_estab linger toks =
+  match toks with
+  | role :: steps ->
+    let fresh () = { n_known = true; n_ep = new_endpoint Z0 Z0 Z0 Z0 (zi 16) Z0 Z0 } in
+    let st = ref CNone and node = ref None and t = ref 0 and ss = ref 0 and d = ref 0 in
+    let hist = ref [] in            (* kind, ns of every first-time peer message *)
+    let peer_ns = ref 0 in
+    let out = Buffer.create 64 in
+    let show () = Buffer.add_string out (Printf.sprintf "T%dS%dD%d " !t !ss !d) in
+    if role = "lac" then begin
+      let n = fresh () in
+      node := Some { n with n_ep = fst (ep_submit n.n_ep (zi 1) Z0 Z0 None) };
+      st := CLive; t := 1; d := 1; show ()
+    end;
+    let deliver kind ns =
+      if kind = "sccrq" then begin
+        let (st', opens) = conn_step linger !st CSccrq in
+        (match !st, !node with
+         | CLive, Some n when not opens ->     (* a copy: handed to the existing channel, which sees a duplicate *)
+           node := Some (node_dispatch n { m_tid_ok = true; m_pkt = { k_body = Some (zi 1); k_sid = Z0; k_ns = zi ns; k_nr = Z0 };
+                                           m_replies = []; m_removes = false } Z0)
+         | _ -> ());
+        st := st';
+        if opens then begin
+          let n = fresh () in
+          let n = node_dispatch n { m_tid_ok = true; m_pkt = { k_body = Some (zi 1); k_sid = Z0; k_ns = zi ns; k_nr = Z0 };
+                                    m_replies = [(zi 1, Z0)]; m_removes = false } Z0 in
+          node := Some n; incr t; incr d
+        end
+      end else
+        match !st, !node with
+        | CLive, Some n ->
+          let nr0 = n.n_ep.e_ch.c_nr in
+          let n' = node_dispatch n { m_tid_ok = true; m_pkt = { k_body = Some (zi 1); k_sid = Z0; k_ns = zi ns; k_nr = n.n_ep.e_ch.c_ns };
+                                     m_replies = []; m_removes = (kind = "stop") } Z0 in
+          node := Some n';
+          if n'.n_ep.e_ch.c_nr <> nr0 then begin   (* accepted: the handler runs, once *)
+            match kind with
+            | "icrq" -> incr ss; incr d
+            | "sccrp" -> incr ss; d := !d + 2
+            | "icrp" -> incr d
+            | "cdn" -> if !ss > 0 then decr ss
+            | "stop" -> t := !t - 1; ss := 0; st := fst (conn_step linger !st CTeardown)
+            | _ -> ()
+          end
+        | _ -> () in
+    List.iter (fun s ->
+        if String.length s > 1 && s.[0] = 'r' && s <> "r" then begin
+          let k = ios (String.sub s 1 (String.length s - 1)) in
+          (match List.nth_opt !hist k with Some (kind, ns) -> deliver kind ns | None -> ());
+          show ()
+        end else begin
+          hist := !hist @ [(s, !peer_ns)];
+          deliver s !peer_ns; incr peer_ns; show ()
+        end) steps;
+    "estab " ^ String.trim (Buffer.contents out)
+  | _ -> "badline"
+
 let () =
   let lines = read_lines Sys.argv.(1) in
   let impls = if Array.length Sys.argv > 2 && Sys.argv.(2) <> "-" then Array.of_list (read_lines Sys.argv.(2)) else [||] in
@@ -229,10 +291,13 @@ let () =
   (* one model: what /repo HEAD does (all C16 findings are fixed); the pre-fix behaviours survive only as
      the refuted theorem in Properties.v, not in the correspondence *)
   let zlb_recv = false in   (* HEAD's dispatch rule; the pre-96f9f16 rule exists only in the refuted theorem *)
+  (* variant "defective" = the one open finding: no closed-connection record, a late SCCRQ copy reopens *)
+  let linger = not (Array.length Sys.argv > 3 && Sys.argv.(3) = "defective") in
   List.iter (fun line ->
       incr idx;
       match tokens line with
       | [] -> ()
+      | "estab" :: rest -> print_endline (run_estab linger rest)
       | "runner" :: rest -> print_endline (run_runner rest (if !idx < Array.length impls then impls.(!idx) else ""))
       | "pair" :: rest -> print_endline (run_pair zlb_recv rest)
       | "disp" :: rest -> print_endline (run_disp zlb_recv rest)
